@@ -23,6 +23,9 @@ pub struct Case {
     /// Some(seed): the deterministic big dictionary (>= 20,000 ids) instead of `dic`
     #[serde(default)]
     pub big: Option<(u64, u8)>,
+    /// Some(seed): the deterministic dictionary whose double array exceeds 2^21 units (extended offsets)
+    #[serde(default)]
+    pub huge: Option<u64>,
 }
 
 pub struct C04;
@@ -178,6 +181,7 @@ impl Property for C04 {
                 texts,
                 queries,
                 big: None,
+                huge: None,
             })
             .boxed()
     }
@@ -195,6 +199,10 @@ impl Property for C04 {
     fn check(&self, case: &Case, ctx: &mut Ctx) -> Report {
         let mut rep = Report::default();
         let cfg = CfgModel::minimal(&pos_from_str(POS_NOUN));
+        if let Some(seed) = case.huge {
+            check_huge(&mut rep, seed, ctx);
+            return rep;
+        }
         if let Some((seed, maxh)) = case.big {
             let (dic, texts, queries) = big_dictionary(seed, maxh.max(1));
             match build_world(&dic, &cfg, ctx) {
@@ -237,15 +245,104 @@ impl Property for C04 {
         rep
     }
     fn extra(&self, tier: Tier, seed: u64, ctx: &mut Ctx, stats: &mut Stats) -> Vec<(Value, Failure)> {
-        let case = Case { dic: DicModel { matrix: Matrix { nl: 1, nr: 1, lines: vec![] }, system: vec![], users: vec![] }, texts: vec![], queries: vec![], big: Some((seed, tier.pick(12, 24))) };
+        let case = Case { dic: DicModel { matrix: Matrix { nl: 1, nr: 1, lines: vec![] }, system: vec![], users: vec![] }, texts: vec![], queries: vec![], big: Some((seed, tier.pick(12, 24))), huge: None };
         let rep = self.check(&case, ctx);
         stats.record(&format!("big:{}", seed), rep.failure.is_none(), Some("big-dictionary"));
         stats.extra.insert("big_dictionary".into(), json!("all 1884 keys of length 1-3 over 12 symbols with 1..=12 (thorough 24) homographs each (> 10,000 ids, word-id table > 65,535 bytes), 40 texts, every offset"));
-        match rep.failure {
+        let mut fails = match rep.failure {
             Some(f) => vec![(serde_json::to_value(&case).unwrap(), f)],
             None => vec![],
+        };
+        // a trie beyond 2^21 units: yada stores relative offsets >= 2^21 in the extended form,
+        // which only dictionaries of real size (an 8 MiB trie) contain
+        let case = Case { dic: DicModel { matrix: Matrix { nl: 1, nr: 1, lines: vec![] }, system: vec![], users: vec![] }, texts: vec![], queries: vec![], big: None, huge: Some(seed) };
+        let rep = self.check(&case, ctx);
+        stats.record(&format!("huge:{}", seed), rep.failure.is_none(), Some("huge-trie"));
+        stats.extra.insert("huge_trie".into(), json!("1,296 keys of 1,800 bytes plus 185 of their 900-byte prefixes (double array > 2^21 units): every key looked up at offset 0 and 40 keys at every offset against a hash-map model"));
+        if let Some(f) = rep.failure {
+            fails.push((serde_json::to_value(&case).unwrap(), f));
+        }
+        fails
+    }
+}
+
+fn check_huge(rep: &mut Report, seed: u64, ctx: &mut Ctx) {
+    use std::collections::HashMap;
+    let pos = pos_from_str(POS_NOUN);
+    let digits: Vec<char> = "abcdefghijklmnopqrstuvwxyz0123456789".chars().collect();
+    let mut x = splitmix(seed ^ 0x4C04);
+    let mut system: Vec<Entry> = Vec::new();
+    for a in &digits {
+        for b in &digits {
+            let mut k = String::with_capacity(1800);
+            k.push(*a);
+            k.push(*b);
+            while k.len() < 1800 {
+                x = splitmix(x);
+                let mut y = x;
+                for _ in 0..12 {
+                    k.push(digits[(y % 26) as usize]);
+                    y /= 26;
+                }
+            }
+            k.truncate(1800);
+            system.push(Entry::simple(&k, 0, 0, 100, &pos));
         }
     }
+    let n = system.len();
+    for i in (0..n).step_by(7) {
+        let k = system[i].key[..900].to_string();
+        system.push(Entry::simple(&k, 0, 0, 90, &pos));
+    }
+    let dic = DicModel { matrix: Matrix { nl: 1, nr: 1, lines: vec![] }, system, users: vec![] };
+    let cfg = CfgModel::minimal(&pos);
+    let dict = match build_world(&dic, &cfg, ctx) {
+        Ok((d, _)) => d,
+        Err(e) => {
+            rep.fail("huge-dictionary-build", e.describe());
+            return;
+        }
+    };
+    let mut by_key: HashMap<&[u8], Vec<u32>> = HashMap::new();
+    for (i, e) in dic.system.iter().enumerate() {
+        by_key.entry(e.key.as_bytes()).or_default().push(i as u32);
+    }
+    let lex = dict.lexicon();
+    let lookup_at = |rep: &mut Report, bytes: &[u8], off: usize| -> bool {
+        let mut got: Vec<(u32, usize)> = lex.lookup(bytes, off).map(|e| (e.word_id.word(), e.end)).collect();
+        got.sort();
+        let mut want: Vec<(u32, usize)> = Vec::new();
+        for l in [900usize, 1800] {
+            if off + l <= bytes.len() {
+                if let Some(ids) = by_key.get(&bytes[off..off + l]) {
+                    want.extend(ids.iter().map(|i| (*i, off + l)));
+                }
+            }
+        }
+        want.sort();
+        if got != want {
+            rep.fail("lookup-set", format!("huge dictionary, key starting {:?} offset {}: reported (word,end) {:?}, expected {:?}", String::from_utf8_lossy(&bytes[..8]), off, got, want));
+            return false;
+        }
+        true
+    };
+    for i in 0..n {
+        let mut t = dic.system[i].key.clone();
+        t.push('x');
+        if !lookup_at(rep, t.as_bytes(), 0) {
+            return;
+        }
+    }
+    for i in (0..n).step_by(n / 40) {
+        let t = format!("{}{}", &dic.system[i].key[1700..], dic.system[(i + 7) % n].key);
+        for off in 0..t.len() {
+            if !lookup_at(rep, t.as_bytes(), off) {
+                return;
+            }
+        }
+    }
+    rep.nontrivial = true;
+    rep.class("huge-trie");
 }
 
 fn big_dictionary(seed: u64, maxh: u8) -> (DicModel, Vec<String>, Vec<String>) {
